@@ -11,6 +11,7 @@ import (
 	"bytes"
 	"encoding/json"
 	"fmt"
+	"io"
 	"os"
 	"runtime/debug"
 )
@@ -34,12 +35,25 @@ func init() {
 	}
 	in := bufio.NewReaderSize(os.Stdin, 1<<20)
 	out := bufio.NewWriter(os.Stdout)
+	realStderr := os.Stderr
+	// whatever gopatch code writes to the process-wide os.Stdout / os.Stderr (instead of mainCmd's writers) is
+	// collected in two scratch files and reported in front of the captured streams, where the real binary shows it
+	verifStray[0], _ = os.CreateTemp("", "verif-stray-out")
+	verifStray[1], _ = os.CreateTemp("", "verif-stray-err")
+	for _, f := range verifStray {
+		if f != nil {
+			os.Remove(f.Name())
+		}
+	}
+	if verifStray[0] != nil && verifStray[1] != nil {
+		os.Stdout, os.Stderr = verifStray[0], verifStray[1]
+	}
 	for {
 		line, err := in.ReadBytes('\n')
 		if len(line) > 0 {
 			var req verifReq
 			if jerr := json.Unmarshal(line, &req); jerr != nil {
-				fmt.Fprintln(os.Stderr, "verif driver: bad request:", jerr)
+				fmt.Fprintln(realStderr, "verif driver: bad request:", jerr)
 				os.Exit(2)
 			}
 			resp := verifServe(&req)
@@ -54,6 +68,24 @@ func init() {
 	}
 }
 
+var verifStray [2]*os.File
+
+// verifTakeStray returns and discards what has been written to a scratch file since the last call.
+func verifTakeStray(f *os.File) string {
+	if f == nil {
+		return ""
+	}
+	n, err := f.Seek(0, io.SeekCurrent)
+	if err != nil || n == 0 {
+		return ""
+	}
+	b := make([]byte, n)
+	f.ReadAt(b, 0)
+	f.Truncate(0)
+	f.Seek(0, io.SeekStart)
+	return string(b)
+}
+
 func verifServe(req *verifReq) (resp verifResp) {
 	var stdout, stderr bytes.Buffer
 	defer func() {
@@ -61,8 +93,8 @@ func verifServe(req *verifReq) (resp verifResp) {
 			resp.Panic = fmt.Sprintf("%v\n%s", r, debug.Stack())
 			resp.Exit = 2
 		}
-		resp.Stdout = stdout.String()
-		resp.Stderr = stderr.String()
+		resp.Stdout = verifTakeStray(verifStray[0]) + stdout.String()
+		resp.Stderr = verifTakeStray(verifStray[1]) + stderr.String()
 	}()
 	cmd := mainCmd{
 		Stdin:  bytes.NewReader([]byte(req.Stdin)),
